@@ -22,6 +22,13 @@ def core_cfgs(tier, seed, want):
         add(n=3, m=2, s=2, p=2, w="diag", eps="default", mrhs=1)
         add(n=2, m=2, s=1, p=1, w="none", eps="sym", useed=1, vseed=u)
         add(n=3, m=2, s=1, p=2, w="diag", eps="neg", useed=0, vseed=1)
+    if "basic" in want:
+        # rationally parametrised frames: ALL rotations U (Euler-Rodrigues) and V ((1-k^2, 2k)/(1+k^2)), symbolic parameters
+        add(n=3, m=2, s=1, p=1, w="diag", eps="sym", useed=9999, vseed=10000)
+        if tier == "thorough":
+            add(n=2, m=2, s=2, p=2, w="diag", eps="sym", useed=9999, vseed=10000, mrhs=1)
+            add(n=3, m=2, s=2, p=2, w="none", eps="default", useed=9999, vseed=10000, mrhs=1, par=1)
+            add(n=3, m=2, s=1, p=1, w="diag", hist=1, useed=9999, vseed=10000, maxpaths=32)
     if "realsvd" in want:
         add(n=2, m=1, s=1, p=1, w="diag", real_svd=1, eps="sym")
         add(n=2, m=1, s=2, p=1, w="none", real_svd=1, mrhs=1)
@@ -29,6 +36,7 @@ def core_cfgs(tier, seed, want):
             add(n=3, m=1, s=2, p=1, w="none", real_svd=1, mrhs=1)
     if "zero_w" in want:
         add(n=3, m=1, s=1, p=1, w="diag", real_svd=1, zero_w=1)
+        add(n=4, m=2, s=1, p=1, w="diag", zero_w=2, eps="sym")
     if "hist" in want:
         add(n=3, m=2, s=1, p=2, w="diag", hist=4, maxpaths=24)
         add(n=3, m=2, s=1, p=1, w="diag", hist=1)
@@ -51,6 +59,8 @@ def core_cfgs(tier, seed, want):
         for (sc, d) in list(C):
             # a second frame pair and larger shapes
             d2 = dict(d)
+            if d["useed"] >= 9999:
+                continue
             d2["useed"], d2["vseed"] = d["vseed"] + 4, d["useed"] + 6
             extra.append((sc, d2))
         C += extra
@@ -67,9 +77,9 @@ def core_cfgs(tier, seed, want):
 
 
 R_PROPS = {
-    "C01": dict(prefixes=["C01"], want={"basic", "realsvd", "hist", "par"}, extra=[]),
+    "C01": dict(prefixes=["C01"], want={"basic", "realsvd", "hist", "par", "zero_w"}, extra=[]),
     "C02": dict(prefixes=["C02"], want={"basic", "realsvd", "hist", "par", "order"}),
-    "C03": dict(prefixes=["C03"], want={"basic", "realsvd", "hist", "par", "faults"}),
+    "C03": dict(prefixes=["C03"], want={"basic", "realsvd", "hist", "par", "faults", "zero_w"}),
     "C10": dict(prefixes=["C10"], want={"hist", "faults", "par"}, twins=[("core", dict(n=3, m=2, s=1, p=1, w="diag", hist=1, twin=1, useed=2, vseed=5))], twin_prefixes=["C10.fresh"]),
 }
 
@@ -101,6 +111,7 @@ def relw_cfgs(tier, seed):
          ("relw", dict(n=3, m=2, s=1, p=1, kind="unit", useed=u, vseed=v)),
          ("relw", dict(n=3, m=2, s=2, p=1, kind="unit", mrhs=1, par=1, useed=1, vseed=u)),
          ("relw", dict(n=3, s=1, p=1, w="diag", kind="zero", zero_w=1)),
+         ("relw", dict(n=4, m=2, s=2, p=1, w="diag", kind="zero", zero_w=2, mrhs=1, useed=u, vseed=v)),
          ("relw_stats", dict(n=4, m=2, p=1, w="diag")),
          ("relw_stats", dict(n=4, m=1, p=2, w="diag"))]
     if tier == "thorough":
